@@ -84,6 +84,16 @@ func gen(tier string) []proto.Item {
 			items = append(items, proto.Item{Scn: s, Class: fmt.Sprintf("%s/neighbouring-flows-reply-first/ttl%d", v, t)})
 		}
 	}
+	// the send call of probe k takes 15 ms (the socket waits for buffer space); the reply to probe k-1 arrives in the
+	// middle of that call: its round-trip time does not include the rest of the other probe's send
+	for _, v := range proto.Variants {
+		for _, k := range []int{2, 3} {
+			s := proto.Scn{Variant: v, First: 1, Last: 5, Dest: 4, IPIDBase: 500, EchoBase: 41, TimeoutMs: 300, DelayMs: 10}
+			s.Hops = map[int]proto.HopSpec{k - 1: {DelayUs: 13000}}
+			s.Faults = []simnet.Fault{{Op: "WriteTo", K: k, Class: "stall"}}
+			items = append(items, proto.Item{Scn: s, Class: fmt.Sprintf("%s/reply-arrives-during-the-next-probes-slow-send/k%d", v, k)})
+		}
+	}
 	items = append(items, ForwardReorder(tier, 500, 41)...)
 	return items
 }
